@@ -191,6 +191,14 @@ pub fn finish(d: &Describe, tier: Tier, seed: i64, acc: Acc, wall_s: f64, exhaus
     let dir = verif_dir();
     let _ = std::fs::create_dir_all(dir.join("evidence"));
     let _ = std::fs::create_dir_all(dir.join("replays"));
+    // replay files of earlier runs of this property are stale
+    if let Ok(rd) = std::fs::read_dir(dir.join("replays")) {
+        for e in rd.flatten() {
+            if e.file_name().to_string_lossy().starts_with(&format!("{}-", d.id)) {
+                let _ = std::fs::remove_file(e.path());
+            }
+        }
+    }
     let mut new_violations = 0;
     let mut known_seen = 0;
     let mut out = std::io::stdout();
